@@ -318,7 +318,10 @@ def run(ctx):
     else:
         ctx.ok("R19.f", ig, ig.node, "two generators initialised in a row: distinct empty save stacks, cache (None, -1)")
 
-    # ---------------------------------------------------------------- R19.g
+    hash_state_agreement(ctx, "R19.g")
+
+
+def hash_state_agreement(ctx, rule):
     HQ = "numbergen.Hash"
     hinit, hset, hget = ctx.repo.method(HQ, "__init__"), ctx.repo.method(HQ, "__setstate__"), ctx.repo.method(HQ, "__getstate__")
     ctx.require(hinit and hset and hget, "numbergen.Hash no longer defines __init__/__getstate__/__setstate__")
@@ -357,9 +360,9 @@ def run(ctx):
     ctx.abstract_cases += 2
     key_of = lambda x: ("encoded", id(x[1])) if isinstance(x, tuple) else ("other", id(x))
     if [key_of(x) for x in f_init] != [key_of(x) for x in f_set] or not f_init:
-        ctx.fail("R19.g", hset, hset.node, "Hash.__init__ feeds the md5 state %s, Hash.__setstate__ feeds it %s: a deep-copied or unpickled generator (every instance gets a deep copy of the class-level "
+        ctx.fail(rule, hset, hset.node, "Hash.__init__ feeds the md5 state %s, Hash.__setstate__ feeds it %s: a deep-copied or unpickled generator (every instance gets a deep copy of the class-level "
                                            "generator) hashes differently from the generator it was copied from -- e.g. it loses its seed" % (
                                                [getattr(x[1], "name", x) if isinstance(x, tuple) else x for x in f_init], [getattr(x[1], "name", x) if isinstance(x, tuple) else x for x in f_set]),
                  key=hset.qualname + "::digest-inputs-differ", input="gen = UniformRandom(seed=42); copy.deepcopy(gen)() != gen() at the same time")
     else:
-        ctx.ok("R19.g", hset, hset.node, "__init__ and __setstate__ feed the md5 state the same %d input(s)" % len(f_init))
+        ctx.ok(rule, hset, hset.node, "__init__ and __setstate__ feed the md5 state the same %d input(s)" % len(f_init))
